@@ -12,9 +12,9 @@ dn=$(basename $demo .rs)
 cd $wt
 echo "== suite with change (excluding demo)"; s1=$(cargo test --workspace --offline --no-fail-fast 2>&1 | grep -E '^test result' | grep -v ' 0 passed; 0 failed' ); echo "$s1"
 echo "== demo with change"; cargo test --offline --test $dn 2>&1 | grep -E '^test result|^test .* (FAILED|ok)$' | tee $out/demo_with_change.txt
-git stash push -q -- src
+git apply -R $patch
 echo "== demo without change"; cargo test --offline --test $dn 2>&1 | grep -E '^test result|^test .* (FAILED|ok)$' | tee $out/demo_without_change.txt
-git stash pop -q
+git apply $patch
 cd /repo && git apply $patch || { echo "patch does not apply to /repo"; exit 2; }
 cd /verif
 for p in $props; do
